@@ -1973,7 +1973,10 @@ func (sa *Application) removeAllocationInternal(allocationKey string, releaseTyp
 		if resources.IsZero(sa.allocatedPlaceholder) {
 			sa.clearPlaceholderTimer()
 			sa.hasPlaceholderAlloc = false
-			if (sa.IsCompleting() && sa.stateTimer == nil) || sa.IsFailing() || sa.IsResuming() || sa.hasZeroAllocations() {
+			// a confirmed replacement adds its real allocation right after this: the application is not done
+			replacing := releaseType == si.TerminationType_PLACEHOLDER_REPLACED && alloc.GetRelease() != nil
+			idle := sa.hasZeroAllocations() && !replacing
+			if (sa.IsCompleting() && sa.stateTimer == nil && !replacing) || sa.IsFailing() || sa.IsResuming() || idle {
 				removeApp = true
 				event = CompleteApplication
 				if sa.IsFailing() {
@@ -1982,7 +1985,7 @@ func (sa *Application) removeAllocationInternal(allocationKey string, releaseTyp
 				if sa.IsResuming() {
 					event = RunApplication
 					// an application that resumes with nothing left to run completes right away
-					completeAfterResume = sa.hasZeroAllocations()
+					completeAfterResume = idle
 					removeApp = completeAfterResume
 				}
 				eventWarning = "Application state not changed while removing a placeholder allocation"
